@@ -615,7 +615,7 @@ def _stmts_text(src, body):
     for n in body:
         if isinstance(n, ast.Expr) and isinstance(n.value, ast.Constant) and isinstance(n.value.value, str):
             continue
-        out.append(_norm(src.seg(n)))
+        out.append(_norm(ast.unparse(n)))      # (unparse: comments and layout do not matter)
     return out
 
 
